@@ -413,7 +413,8 @@ class Analysis:
             out |= self._escapes.get(id(g), frozenset())
         return out
 
-    def escapes_in(self, fn: FunctionInfo, start_filter: Optional[Callable[[Node], bool]] = None):
+    def escapes_in(self, fn: FunctionInfo, start_filter: Optional[Callable[[Node], bool]] = None,
+                   raised: Optional[Callable[[Node], Set[Tuple[str, str]]]] = None):
         """Typed propagation of exceptions along exception edges of *fn*.
 
         Returns {'exit': frozenset((type, origin)), 'handler': {handler ast id: set}}.
@@ -462,7 +463,7 @@ class Analysis:
                 continue
             if start_filter is not None and not start_filter(n):
                 continue
-            for item in self.raised_at(fn, n):
+            for item in (raised(n) if raised is not None else self.raised_at(fn, n)):
                 send(n.exc, item)
 
         # reraise nodes: pass through what arrived at their region entry
@@ -633,6 +634,8 @@ class Analysis:
             kws = {kw.arg: kw.value for kw in call.keywords if kw.arg}
             if isinstance(call.func, ast.Attribute):
                 recv = call.func.value
+            if callee.name == "__call__" and not (isinstance(call.func, ast.Attribute) and call.func.attr == "__call__"):
+                recv = call.func        # calling an object: obj(...) is obj.__call__(...)
         elif k == "attr":
             recv = node.ast.value
         elif k == "assign":
